@@ -4,6 +4,7 @@
 d="$1"; shift
 git -C /repo apply "$d" || { echo "patch does not apply"; exit 2; }
 cd /verif
+export VERIF_EVIDENCE_DIR=/verif/.run/scratch-evidence
 for p in "$@"; do
   out=$(./check "$p" --tier quick 2>&1)
   if echo "$out" | grep -q "^VIOLATION"; then v=DETECTED; else v=missed; fi
